@@ -147,14 +147,19 @@ Proof.
   pose proof (Z.mod_pos_bound now 1000000000 ltac:(lia)). split; nia.
 Qed.
 
-(* With the repaired TTL rule the persistent driver takes exactly the decisions of the
-   high-water-mark model, at every instant (no assumption on the clock). *)
-Lemma bstep_sim E bst nst r :
-  0 < E -> brel E bst nst ->
-  snd (bstep ttl_cover_nonce E bst r) = snd (nstep E nst r) /\
-  brel E (fst (bstep ttl_cover_nonce E bst r)) (fst (nstep E nst r)).
+(* A TTL rule covers the nonce when the entry it writes outlives the nonce's freshness window:
+   the entry is still visible at every instant at which the nonce is not yet stale. *)
+Definition ttl_covers (ttl : Z -> Z -> Z -> Z) : Prop :=
+  forall E now n, 0 < E -> now - E < n -> n + E < sec (now + ttl E now n) * second.
+
+(* With ANY TTL rule that covers the nonce the persistent driver takes exactly the decisions of
+   the high-water-mark model, at every instant (no assumption on the clock). *)
+Lemma bstep_sim_gen ttl E bst nst r :
+  ttl_covers ttl -> 0 < E -> brel E bst nst ->
+  snd (bstep ttl E bst r) = snd (nstep E nst r) /\
+  brel E (fst (bstep ttl E bst r)) (fst (nstep E nst r)).
 Proof.
-  intros HE Hrel. unfold bstep, nstep.
+  intros Hcov HE Hrel. unfold bstep, nstep.
   destruct (stale E (nr_now r) (nr_n r)) eqn:Hst; cbn; [split; auto|].
   unfold stale in Hst. replace (0 <? E) with true in * by (symmetry; now apply Z.ltb_lt).
   cbn in Hst. apply Z.leb_gt in Hst.
@@ -164,9 +169,8 @@ Proof.
     destruct (bvisible (nr_now r) e) eqn:Hv.
     + destruct (Z.leb_spec (nr_n r) (be_n e)); cbn; [split; auto|].
       split; auto. intros j. rewrite !aget_aset. destruct (N.eqb j (nr_id r)); [|apply Hrel].
-      cbn. split; auto. split; [lia|]. right.
-      unfold ttl_cover_nonce. pose proof (sec_bound (nr_now r + (E + second + Z.max 0 (nr_n r - nr_now r)))).
-      unfold second in *. lia.
+      cbn. split; [reflexivity|]. split; [lia|]. right.
+      apply Hcov; lia.
     + (* entry expired: the stored nonce is stale, so both reject/accept alike *)
       unfold bvisible in Hv. apply orb_false_iff in Hv as [Hz Hlt].
       apply Z.eqb_neq in Hz. destruct Hexp as [?|Hexp]; [contradiction|].
@@ -176,24 +180,38 @@ Proof.
       destruct (Z.leb_spec (nr_n r) 0); destruct (Z.leb_spec (nr_n r) (be_n e)); cbn;
         try (split; [reflexivity|assumption]); try lia.
       split; auto. intros j. rewrite !aget_aset. destruct (N.eqb j (nr_id r)); [|apply Hrel].
-      cbn. split; auto. split; [lia|]. right.
-      unfold ttl_cover_nonce. pose proof (sec_bound (nr_now r + (E + second + Z.max 0 (nr_n r - nr_now r)))).
-      unfold second in *. lia.
+      cbn. split; [reflexivity|]. split; [lia|]. right.
+      apply Hcov; lia.
   - rewrite Hi. destruct (Z.leb_spec (nr_n r) 0); cbn; [split; auto|].
     split; auto. intros j. rewrite !aget_aset. destruct (N.eqb j (nr_id r)); [|apply Hrel].
-    cbn. split; auto. split; [lia|]. right.
-    unfold ttl_cover_nonce. pose proof (sec_bound (nr_now r + (E + second + Z.max 0 (nr_n r - nr_now r)))).
-    unfold second in *. lia.
+    cbn. split; [reflexivity|]. split; [lia|]. right.
+    apply Hcov; lia.
 Qed.
+
+Theorem brun_eq_nrun_gen ttl E rs : ttl_covers ttl -> 0 < E -> forall bst nst,
+  brel E bst nst -> brun ttl E bst rs = nrun E nst rs.
+Proof.
+  intros Hcov HE. induction rs as [|r rs IH]; intros bst nst Hrel; cbn; auto.
+  destruct (bstep_sim_gen ttl E bst nst r Hcov HE Hrel) as [Hd Hr].
+  destruct (bstep ttl E bst r) as [b' d1]. destruct (nstep E nst r) as [n' d2].
+  cbn in *. subst. f_equal. now apply IH.
+Qed.
+
+Lemma ttl_cover_nonce_covers : ttl_covers ttl_cover_nonce.
+Proof.
+  intros E now n HE Hf. unfold ttl_cover_nonce.
+  pose proof (sec_bound (now + (E + second + Z.max 0 (n - now)))). unfold second in *. lia.
+Qed.
+
+Lemma bstep_sim E bst nst r :
+  0 < E -> brel E bst nst ->
+  snd (bstep ttl_cover_nonce E bst r) = snd (nstep E nst r) /\
+  brel E (fst (bstep ttl_cover_nonce E bst r)) (fst (nstep E nst r)).
+Proof. apply bstep_sim_gen, ttl_cover_nonce_covers. Qed.
 
 Theorem brun_eq_nrun E rs : 0 < E -> forall bst nst,
   brel E bst nst -> brun ttl_cover_nonce E bst rs = nrun E nst rs.
-Proof.
-  intros HE. induction rs as [|r rs IH]; intros bst nst Hrel; cbn; auto.
-  destruct (bstep_sim E bst nst r HE Hrel) as [Hd Hr].
-  destruct (bstep ttl_cover_nonce E bst r) as [b' d1]. destruct (nstep E nst r) as [n' d2].
-  cbn in *. subst. f_equal. now apply IH.
-Qed.
+Proof. apply brun_eq_nrun_gen, ttl_cover_nonce_covers. Qed.
 
 Lemma brel_empty E : brel E [] [].
 Proof. intros i. reflexivity. Qed.
@@ -221,6 +239,24 @@ Theorem ttl_from_accept_refuted_future :
   brun ttl_from_accept E15 [] ttl_witness_future = [true; true] /\
   brun ttl_cover_nonce E15 [] ttl_witness_future = [true; false].
 Proof. vm_compute. auto. Qed.
+
+(* a TTL "measured from the nonce and rounded up to the next full second": rounding the duration up
+   does not make up for the database rounding the expiry instant down; in the last fraction of a
+   second of the nonce's window the entry is gone and a repeat is accepted *)
+Definition ttl_round_up (E now n : Z) : Z := ((n + E - now) / second) * second + second.
+Definition ttl_witness_round : list nreq :=
+  [ {| nr_now := 1000600000000; nr_id := 1%N; nr_n := 1000599000000 |};
+    {| nr_now := 1900100000000; nr_id := 1%N; nr_n := 1000599000000 |} ].
+Theorem ttl_round_up_refuted :
+  brun ttl_round_up E15 [] ttl_witness_round = [true; true] /\
+  nrun E15 [] ttl_witness_round = [true; false] /\
+  brun ttl_cover_nonce E15 [] ttl_witness_round = [true; false] /\
+  ~ ttl_covers ttl_round_up.
+Proof.
+  split; [vm_compute; reflexivity|]. split; [vm_compute; reflexivity|]. split; [vm_compute; reflexivity|].
+  intros H. specialize (H E15 1000600000000 1000599000000 eq_refl eq_refl).
+  vm_compute in H. discriminate.
+Qed.
 
 (* ---------- optimistic concurrency: racing duplicates ---------- *)
 Fixpoint count_accept (l : list (nat * occ_out)) : nat :=
